@@ -342,6 +342,42 @@ func runL0(seed int64, n int, dir string) error {
 			}
 			emit("merge_values", in, out)
 		}
+		// --- mergeValues on SQL-reachable entries (full rows stamped with the entry time) written at
+		// pairwise different times, or the same entry twice: the order, the grouping and a repetition
+		// of merges must not matter (checked on the implementation's own results)
+		{
+			nc := 1 + g.r.Intn(3)
+			ts := g.r.Perm(8)
+			mk := func(i int) mcval {
+				return mcval{md: 1700000000000000000 + int64(ts[i])*10, has: true, row: g.row(nc, true)}
+			}
+			a, b, c := mk(0), mk(1), mk(2)
+			if g.r.Intn(6) == 0 {
+				b = a
+			}
+			in, out := &tw{}, &tw{}
+			in.mcval(a)
+			in.mcval(b)
+			in.mcval(c)
+			if catch(func() {
+				ab := s3db.VerifMergeValues(a.crdt(), b.crdt())
+				ba := s3db.VerifMergeValues(b.crdt(), a.crdt())
+				abc := s3db.VerifMergeValues(s3db.VerifMergeValues(a.crdt(), b.crdt()), c.crdt())
+				bc := s3db.VerifMergeValues(b.crdt(), c.crdt())
+				a_bc := s3db.VerifMergeValues(a.crdt(), bc)
+				aa := s3db.VerifMergeValues(a.crdt(), a.crdt())
+				for _, v := range []crdt.Value{ab, ba, abc, a_bc, aa, a.crdt()} {
+					out.s("/")
+					out.cvalRow(v)
+				}
+				stats["merge_laws_ok"]++
+			}) {
+				out = &tw{}
+				out.s("P")
+				stats["merge_laws_panic"]++
+			}
+			emit("merge_laws", in, out)
+		}
 		// --- node codec: marshalProto / unmarshalProto of a mast node
 		{
 			nk := g.r.Intn(5)
